@@ -103,10 +103,11 @@ func (srv *Srv) attach(req *SrvReq) {
 		return
 	}
 
+	badafid := false
 	if tc.Afid != NOFID {
 		req.Afid = conn.FidGet(tc.Afid)
 		if req.Afid == nil {
-			req.RespondError(Eunknownfid)
+			badafid = true
 		}
 	}
 
@@ -119,6 +120,11 @@ func (srv *Srv) attach(req *SrvReq) {
 
 	if user == nil {
 		req.RespondError(Enouser)
+		return
+	}
+
+	if badafid {
+		req.RespondError(Eunknownfid)
 		return
 	}
 
